@@ -2,8 +2,10 @@
    evaluator.  The effects are the ones ES5 makes observable: the sequence of
    valueOf/toString invocations (a log), writes to variables performed by those
    methods, and abrupt completion.  One evaluator, parametrised by a [dialect]
-   that selects the primitive conversions and the places where otto orders
-   GetValue differently; [spec_d] is ES5, [model_d] is otto. *)
+   that selects the primitive conversions and the transcription of the comparison
+   algorithms; [spec_d] is ES5, [model_d] is otto.  (otto's former deviations in the
+   order of GetValue for a + b and x op= e and in instanceof on bound functions were
+   repaired in /repo by commits 0c8f777, 3657e0a, ea21c58: both dialects share that code now.) *)
 From Coq Require Import ZArith Bool List Lia.
 From Otto Require Import Common.Double Common.Corr C05.Fp C05.Spec C05.Model.
 Import ListNotations.
@@ -176,10 +178,7 @@ Record dialect := {
   d_div : Z -> Z -> Z;
   d_str2num : list Z -> numlit;
   d_strlt : list Z -> list Z -> bool;
-  d_plus_late : bool;        (* a + b: GetValue(b) after ToPrimitive(a) *)
-  d_cmp_late : bool;         (* x op= e: GetValue(x) after evaluating e (otto before commit 3657e0a; no dialect sets it now) *)
-  d_otto_cmp : bool;         (* otto's transcription of 11.8.5 / 11.9.3 instead of the clause text *)
-  d_bound_own : bool         (* instanceof with a bound function on the right uses the bound function's own prototype object *)
+  d_otto_cmp : bool          (* otto's transcription of 11.8.5 / 11.9.3 instead of the clause text *)
 }.
 
 Section WithDialect.
@@ -198,24 +197,12 @@ Definition to_number (p : prim) : M Z :=
               end
   end.
 
-(* number formatting belongs to C06: near the 1e21 / 1e-6 format switches otto
-   decides by math.Log10 and is recorded there; declined here *)
-Definition near (num den tn td : Z) : bool :=
-  Z.abs (num * td - tn * den) * 2 ^ 40 <? tn * den.
-Definition nts_declined (x : Z) : bool :=
-  match decode x with
-  | DFin _ m e => if m =? 0 then false else
-                  let '(n, dd) := rat_of m e in
-                  near n dd (10 ^ 21) 1 || near n dd 1 (10 ^ 6)
-  | _ => false
-  end.
-
 Definition to_string (p : prim) : M (list Z) :=
   match p with
   | PUndef => ret s_undefined
   | PNull => ret s_null
   | PBool b => ret (if b then s_true else s_false)
-  | PNum x => if nts_declined x then decl else lift (number_to_string x)
+  | PNum x => lift (number_to_string x)
   | PStr s => ret s
   end.
 
@@ -404,10 +391,7 @@ Definition binop (op : Z) (l r : value) : M value :=
   else if op =? 20 then
     match r with
     | VO f =>
-        if (o_cls f =? 4) && d_bound_own d then
-          (* newBoundFunctionObject gives every bound function a fresh prototype object: nothing is an instance *)
-          ret (boolv false)
-        else if (o_cls f =? 2) || (o_cls f =? 4) then
+        if (o_cls f =? 2) || (o_cls f =? 4) then
           (* 15.3.5.3; 15.3.4.5.3 for a bound function: the target's [[HasInstance]] *)
           match l with
           | VO o => if o_fproto f =? 0 then throw tag_TypeError
@@ -482,22 +466,11 @@ Fixpoint eval (e : expr) : M value :=
       else if op =? 22 then lv <- eval l ;; if to_boolean_v lv then ret lv else eval r
       else if op =? 23 then _ <- eval l ;; eval r
       else
-        match r with
-        | EVar n =>
-            if (op =? 0) && d_plus_late d then
-              (* calculateBinaryExpression PLUS: toPrimitiveValue(left) before right.resolve() *)
-              lv <- eval l ;; lp <- to_primitive 0 lv ;; rv <- getvar n ;;
-              rp <- to_primitive 0 rv ;; plus_prims lp rp
-            else lv <- eval l ;; rv <- eval r ;; binop op lv rv
-        | _ => lv <- eval l ;; rv <- eval r ;; binop op lv rv
-        end
+        lv <- eval l ;; rv <- eval r ;; binop op lv rv
   | ECond c t f => cv <- eval c ;; if to_boolean_v cv then eval t else eval f
   | EAsg n e1 => v <- eval e1 ;; _ <- setvar n v ;; ret v
   | ECmp op n e1 =>
-      if d_cmp_late d then
-        (* cmplEvaluateNodeAssignExpression: the left reference is resolved after the right operand *)
-        rv <- eval e1 ;; lv <- getvar n ;; x <- binop op lv rv ;; _ <- setvar n x ;; ret x
-      else lv <- getvar n ;; rv <- eval e1 ;; x <- binop op lv rv ;; _ <- setvar n x ;; ret x
+      lv <- getvar n ;; rv <- eval e1 ;; x <- binop op lv rv ;; _ <- setvar n x ;; ret x
   | EInc pre dec n =>
       v <- getvar n ;; a <- to_number_v v ;;
       let b := fadd a (of_int (if dec then -1 else 1)) in
@@ -513,16 +486,14 @@ End WithDialect.
 Definition spec_d : dialect := {|
   d_int32 := to_int32; d_uint32 := to_uint32; d_uint16 := to_uint16; d_integer := to_integer; d_div := fdiv;
   d_str2num := string_to_number; d_strlt := units_lt;
-  d_plus_late := false; d_cmp_late := false; d_otto_cmp := false; d_bound_own := false |}.
+  d_otto_cmp := false |}.
 
 Definition model_str2num (s : list Z) : numlit := NLVal (parse_number s).
 
 Definition model_d : dialect := {|
   d_int32 := m_to_int32; d_uint32 := m_to_uint32; d_uint16 := m_to_uint16; d_integer := m_to_integer; d_div := m_divide;
   d_str2num := model_str2num; d_strlt := m_str_lt;
-  d_plus_late := true;
-  d_cmp_late := false;   (* was true up to /repo commit 3657e0a, which restored the 11.13.2 order *)
-  d_otto_cmp := true; d_bound_own := true |}.
+  d_otto_cmp := true |}.
 
 (* observation of one run: status (0 normal, else the thrown tag), result, final variables, log *)
 Definition obs := (Z * oval * list oval * list Z)%type.
